@@ -190,7 +190,7 @@ def sharing(ctx, d1):
             table['self._imol._phase'] = ('self._imol._phase.copy()', 'phase COPIED')
         expect('Stream.unlink', f, got, table)
         calls = [e.target for e in p.events if e.kind == 'call']
-        if 'self.reset_cache' in calls and 'self._imol._data_cache.clear' in calls:
+        if 'self.reset_cache' in calls:
             d1.ok('Stream.unlink', 'caches reset (property memo and mass/volume views)', f)
         else:
             d1.fail('Stream.unlink', 'contract-caches', 'unlink does not reset the caches', f, f.node)
@@ -199,6 +199,27 @@ def sharing(ctx, d1):
         d1.ok('Stream.unlink', 'per-phase sub-streams (which share the old data and thermal condition) are dropped', f)
     else:
         d1.fail('Stream.unlink', 'contract-substreams', 'unlink leaves the per-phase sub-streams attached to the former partner\'s data / thermal condition', f, f.node)
+    # sibling agreement: whatever link_with can make shared (X = other.X), unlink must re-bind (not merely empty)
+    lw = prog.method('Stream', 'link_with', rel=ST)
+    o_ = lw.params[1]
+    shared = set()
+    for n_ in walk_no_nested(lw.node):
+        if isinstance(n_, ast.Assign) and len(n_.targets) == 1 and isinstance(n_.targets[0], ast.Attribute):
+            tgt = src(n_.targets[0])
+            if tgt.startswith('self.') and src(n_.value) == o_ + tgt[len('self'):]:
+                shared.add(tgt)
+    from ..storage import alias_map, resolve
+    amap = alias_map(f.node)
+    rebound = set()
+    for n_ in walk_no_nested(f.node):
+        if isinstance(n_, ast.Attribute) and isinstance(n_.ctx, ast.Store) and not isinstance(getattr(n_, '_parent', None), ast.AugAssign):
+            rebound.add(resolve(src(n_), amap))
+    for tgt in sorted(shared):
+        if tgt in rebound:
+            d1.ok('Stream.unlink', '%s (which link_with can share) is re-bound to an object of its own' % tgt, f)
+        else:
+            d1.fail('Stream.unlink', 'still-shared-' + tgt.split('.')[-1], 'link_with can make %s the very object of the other stream, but unlink never re-binds it: '
+                    'the two streams keep sharing it after unlink' % tgt, f, f.node)
     locked = [n_ for n_ in walk_no_nested(f.node) if isinstance(n_, ast.Raise)]
     if locked:
         d1.ok('Stream.unlink', 'a locked phase (phase view) refuses to unlink', f, locked[0])
